@@ -1,0 +1,53 @@
+//go:build verif
+
+// Contracts for Aspen's conflict resolution (read as text by /verif's govc; comment-only).
+// The rule is taken from the property statement: higher version wins; equal versions go to
+// the higher leaseholder.
+
+package kv
+
+//@ import version "github.com/synnaxlabs/x/version"
+//@ import query "github.com/synnaxlabs/x/query"
+
+//@ # (version, leaseholder) of an operation or of a stored digest
+//@ decl type SpecVL struct { V version.Counter; L node.Key }
+//@ spec func gt(a SpecVL, b SpecVL) bool = a.V > b.V || (a.V == b.V && a.L > b.L)
+//@ # what a replica keeps for one key after being offered operation o while holding s
+//@ spec func step(s SpecVL, o SpecVL) SpecVL = __ite(gt(o, s), o, s)
+
+//@ # the digest view of a transaction/reader (ghost, uninterpreted): present?, value, read error
+//@ spec func SpecHasDigest(r xkv.Reader, key []byte) bool
+//@ spec func SpecDigestOf(r xkv.Reader, key []byte) Digest
+//@ spec func SpecReadErr(r xkv.Reader, key []byte) error
+//@ trusted func getDigestFromKV(ctx context.Context, r xkv.Reader, key []byte) (dig Digest, err error)
+//@   ensures SpecReadErr(r, key) != nil ==> err == SpecReadErr(r, key) && !__is(err, query.ErrNotFound)
+//@   ensures SpecReadErr(r, key) == nil && !SpecHasDigest(r, key) ==> err != nil && __is(err, query.ErrNotFound)
+//@   ensures SpecReadErr(r, key) == nil && SpecHasDigest(r, key) ==> err == nil && __eq(dig, SpecDigestOf(r, key))
+//@   modifies nothing
+
+//@ func supersedes(ctx context.Context, r xkv.Reader, op Operation) (res bool, err error)
+//@   ensures SpecReadErr(r, op.Key) != nil ==> !res && err == SpecReadErr(r, op.Key)
+//@   ensures SpecReadErr(r, op.Key) == nil ==> err == nil
+//@   ensures SpecReadErr(r, op.Key) == nil && !SpecHasDigest(r, op.Key) ==> res
+//@   ensures SpecReadErr(r, op.Key) == nil && SpecHasDigest(r, op.Key) ==> res == gt(SpecVL{op.Version, op.Leaseholder}, SpecVL{SpecDigestOf(r, op.Key).Version, SpecDigestOf(r, op.Key).Leaseholder})
+//@   modifies nothing
+
+//@ # ---- consequences of the rule (pure lemmas over gt/step; no bound on the number of operations:
+//@ # they are the induction step of "any order, any duplication, same final state")
+//@ lemma gtStrictTotalOrder(a SpecVL, b SpecVL, c SpecVL)
+//@   ensures !gt(a, a)
+//@   ensures gt(a, b) && gt(b, c) ==> gt(a, c)
+//@   ensures gt(a, b) || gt(b, a) || a == b
+//@   ensures !(gt(a, b) && gt(b, a))
+//@ lemma stepOrderIndependent(s SpecVL, a SpecVL, b SpecVL)
+//@   ensures step(step(s, a), b) == step(step(s, b), a)
+//@ lemma stepIdempotent(s SpecVL, a SpecVL)
+//@   ensures step(step(s, a), a) == step(s, a)
+//@   ensures step(s, s) == s
+//@ lemma stepMonotone(s SpecVL, a SpecVL)
+//@   ensures !gt(s, step(s, a))
+//@   ensures step(s, a) == a || step(s, a) == s
+//@ # an operation that was applied (its digest is stored) is rejected when redelivered, and an
+//@ # operation that lost to the stored one is rejected: at most once, never stale (C13)
+//@ lemma redeliveryRejected(s SpecVL, a SpecVL)
+//@   ensures !gt(a, step(s, a))
